@@ -68,7 +68,8 @@ fn c08(r: &mut Rep) {
     let names = ["owned_into", "ref_into", "into", "from_owned", "from_ref", "from", "map_owned", "map_ref", "map", "owned_into_existing", "ref_into_existing", "into_existing",
         "owned_try_into", "ref_try_into", "try_into", "try_from_owned", "try_from_ref", "try_from", "try_map_owned", "try_map_ref", "try_map", "owned_try_into_existing", "ref_try_into_existing", "try_into_existing"];
     // (prefix attributes, item, fields of the From literal, fields of the Into literal, is enum)
-    let bodies: [(&str, &str, &[&str], &[&str], bool); 6] = [
+    let bodies: [(&str, &str, &[&str], &[&str], bool); 7] = [
+        ("", "struct A { x: i32, #[parent] p: P }", &[], &[], false),
         ("", "struct A { x: i32, #[ghost({7})] y: i32 }", &["x", "y"], &["x"], false),
         ("#[ghosts(g: {1})]\n", "struct A { x: i32, #[ghost({7})] y: i32 }", &["x", "y"], &["x", "g"], false),
         ("#[ghosts(g: {1}, h: {2})]\n", "struct A { #[map(z)] x: i32, w: u8 }", &["x", "w"], &["z", "w", "g", "h"], false),
@@ -82,11 +83,13 @@ fn c08(r: &mut Rep) {
         let fall = name.contains("try");
         let existing = name.contains("existing");
         for (pre, body, from_fields, into_fields, is_enum) in bodies {
-            let tuple = body.starts_with("struct A(");
+            let tuple = body.starts_with("struct A(") || body.contains("#[parent]");   // no `..expr` for these
             for vars in vars_opts {
                 for attrs in attr_opts {
                     for term in ["", "update", "return"] {
                         if term == "update" && (is_enum || tuple || existing) { continue; }
+                        // into_existing on an enum has no documented meaning (recorded under C17, DESIGN section 6)
+                        if is_enum && existing { continue; }
                         for order in 0..2 {
                             let mut ps: Vec<String> = vec![];
                             if !vars.is_empty() { ps.push(vars.to_string()); }
@@ -206,44 +209,156 @@ fn expected_into(top: &[(String, String)], nodes: &[Node], ty: &str, recv: &str)
     Lit::Struct(ty.into(), m)
 }
 
+fn ghost_members(nodes: &[Node], prefix: &str, out: &mut Vec<(String, String)>) {
+    for n in nodes {
+        let p = if prefix.is_empty() { n.field.clone() } else { format!("{}.{}", prefix, n.field) };
+        out.push((p.clone(), format!("g_{}", p.replace('.', "_"))));
+        ghost_members(&n.kids, &p, out);
+    }
+}
+
+fn add_ghosts(l: Lit, path: &str, ghosts: &[(String, String)]) -> Lit {
+    match l {
+        Lit::Struct(t, mut m) => {
+            let keys: Vec<String> = m.keys().cloned().collect();
+            for k in keys {
+                let v = m.remove(&k).unwrap();
+                let sub = if path.is_empty() { k.clone() } else { format!("{}.{}", path, k) };
+                m.insert(k, add_ghosts(v, &sub, ghosts));
+            }
+            for (gp, gn) in ghosts { if gp == path { m.insert(gn.clone(), Lit::Leaf("1".into())); } }
+            Lit::Struct(t, m)
+        }
+        l => l,
+    }
+}
+
 fn c03(r: &mut Rep) {
-    for tree in trees() {
-        let (mut leaves, mut parents) = (vec![], vec![]);
-        flatten(&tree, "", &mut leaves, &mut parents);
-        let top = vec![("t1".to_string(), String::new())];
-        let mut all: Vec<(String, String)> = top.clone();
-        all.extend(leaves.clone());
-        let cp = parents.iter().map(|(p, t)| format!("{}: {}", p, t)).collect::<Vec<_>>().join(", ");
-        for perm in permutations(all.len(), 720) {
-            let fields = perm.iter().map(|&i| { let (l, p) = &all[i]; if p.is_empty() { format!("{}: i32", l) } else { format!("#[child({})] {}: i32", p, l) } }).collect::<Vec<_>>().join(", ");
-            let src = format!("#[map(B)]\n#[into_existing(B)]\n#[child_parents({})]\nstruct A {{ {} }}", cp, fields);
-            r.cases += 1;
-            let out = match expand(&src) { Ok(o) => o, Err(e) => { r.fail(&src, format!("does not expand: {}", e)); continue; } };
-            let is = match impls(&out) { Ok(i) => i, Err(e) => { r.fail(&src, e); continue; } };
-            for i in &is {
-                if i.method == "into" {
-                    let e = match i.stmts.last() { Some(syn::Stmt::Expr(e)) => e, _ => { r.fail(&src, format!("[{}] body does not end with an expression", i.head)); break; } };
-                    match lit_of(e) {
-                        Err(m) => { r.fail(&src, format!("[{}] {}", i.head, m)); break; }
-                        Ok(got) => {
-                            let exp = expected_into(&top, &tree, "B", "self");
-                            if got != exp { r.fail(&src, format!("[{}] built {:?}, the tree is {:?}", i.head, got, exp)); break; }
+    // variants: plain; struct-level ghosts addressed by child path (one per node, one at the top, one node that only a ghost names);
+    // a bare #[parent] member (the Into body then assigns to `obj`)
+    for variant in ["plain", "ghosts", "bare-parent"] {
+        for tree in trees() {
+            let (mut leaves, mut parents) = (vec![], vec![]);
+            flatten(&tree, "", &mut leaves, &mut parents);
+            let top = vec![("t1".to_string(), String::new())];
+            let mut all: Vec<(String, String)> = top.clone();
+            all.extend(leaves.clone());
+            let mut ghosts: Vec<(String, String)> = vec![];
+            let mut tree_g = tree.clone();
+            if variant == "ghosts" {
+                ghost_members(&tree, "", &mut ghosts);
+                ghosts.push((String::new(), "g_top".into()));
+                ghosts.push(("z".into(), "g_z".into()));
+                parents.push(("z".into(), "TZ".into()));
+                tree_g.push(Node { field: "z".into(), ty: "TZ".into(), leaves: vec![], kids: vec![] });
+            }
+            let cp = parents.iter().map(|(p, t)| format!("{}: {}", p, t)).collect::<Vec<_>>().join(", ");
+            let gh = if ghosts.is_empty() { String::new() } else { format!("#[ghosts({})]\n", ghosts.iter().map(|(p, n)| if p.is_empty() { format!("{}: {{ 1 }}", n) } else { format!("{}@{}: {{ 1 }}", p, n) }).collect::<Vec<_>>().join(", ")) };
+            let n_fields = all.len() + if variant == "bare-parent" { 1 } else { 0 };
+            for perm in permutations(n_fields, 720) {
+                let fields = perm.iter().map(|&i| if i == all.len() { "#[parent] p: P".to_string() } else { let (l, p) = &all[i]; if p.is_empty() { format!("{}: i32", l) } else { format!("#[child({})] {}: i32", p, l) } }).collect::<Vec<_>>().join(", ");
+                let src = format!("#[map(B)]\n#[into_existing(B)]\n#[child_parents({})]\n{}struct A {{ {} }}", cp, gh, fields);
+                r.cases += 1;
+                let out = match expand(&src) { Ok(o) => o, Err(e) => { r.fail(&src, format!("does not expand: {}", e)); continue; } };
+                let is = match impls(&out) { Ok(i) => i, Err(e) => { r.fail(&src, e); continue; } };
+                if is.len() != 6 { r.fail(&src, format!("{} impls instead of 6", is.len())); continue; }
+                for i in &is {
+                    let by_ref = i.head.contains("for & A") || i.head.contains("< & B >");
+                    if i.method == "into" && variant != "bare-parent" {
+                        let e = match i.stmts.last() { Some(syn::Stmt::Expr(e)) if i.stmts.len() == 1 => e, _ => { r.fail(&src, format!("[{}] body is not one expression", i.head)); break; } };
+                        match lit_of(e) {
+                            Err(m) => { r.fail(&src, format!("[{}] {}", i.head, m)); break; }
+                            Ok(got) => {
+                                let exp = add_ghosts(expected_into(&top, &tree_g, "B", "self"), "", &ghosts);
+                                if got != exp { r.fail(&src, format!("[{}] built {:?}, the tree is {:?}", i.head, got, exp)); break; }
+                            }
+                        }
+                    } else if i.method == "from" {
+                        let e = match i.stmts.last() { Some(syn::Stmt::Expr(e)) if i.stmts.len() == 1 => e, _ => { r.fail(&src, format!("[{}] body is not one expression", i.head)); break; } };
+                        let mut m = BTreeMap::new();
+                        for (l, p) in &all { m.insert(l.clone(), Lit::Leaf(if p.is_empty() { format!("value.{}", l) } else { format!("value.{}.{}", p, l) })); }
+                        if variant == "bare-parent" { m.insert("p".into(), Lit::Leaf(if by_ref { "value.into()".into() } else { "(&value).into()".into() })); }
+                        match lit_of(e) {
+                            Ok(got) if got == Lit::Struct("A".into(), m.clone()) => {}
+                            o => { r.fail(&src, format!("[{}] built {:?}, expected every field read from its child path {:?}", i.head, o, m)); break; }
+                        }
+                    } else {
+                        // into_existing, or into with a bare parent: one assignment `<dst>.<path>.<leaf> = self.<leaf>;` per field, the parent poured once, nothing else
+                        let dst = if i.method == "into" { "obj" } else { "other" };
+                        let mut got: Vec<String> = i.stmts.iter().map(|s| ts(s).replace(' ', "")).collect();
+                        if i.method == "into" {
+                            if got.first().map(|s| s.as_str()) != Some("letmutobj:B=Default::default();") || got.last().map(|s| s.as_str()) != Some("obj") { r.fail(&src, format!("[{}] body does not start from a default value and end with it: {:?}", i.head, got)); break; }
+                            got.remove(0); got.pop();
+                        }
+                        let mut exp: Vec<String> = all.iter().map(|(l, p)| if p.is_empty() { format!("{}.{}=self.{};", dst, l, l) } else { format!("{}.{}.{}=self.{};", dst, p, l, l) }).collect();
+                        for (gp, gn) in &ghosts { exp.push(if gp.is_empty() { format!("{}.{}=1;", dst, gn) } else { format!("{}.{}.{}=1;", dst, gp, gn) }); }
+                        if variant == "bare-parent" {
+                            let recv = if by_ref { "(&(self.p))" } else { "self.p" };
+                            exp.push(format!("{}.into_existing({});", recv, if i.method == "into" { "&mutobj" } else { "other" }));
+                        }
+                        got.sort(); exp.sort();
+                        if got != exp { r.fail(&src, format!("[{}] statements {:?}, expected {:?}", i.head, got, exp)); break; }
+                    }
+                }
+            }
+        }
+    }
+    c03_parents(r);
+}
+
+// parameterised #[parent(..)]: the nested structs of THIS side are rebuilt when converting from the flat counterpart
+fn parent_attr(n: &Node, order: usize) -> String {
+    let mut parts: Vec<String> = n.leaves.clone();
+    for k in &n.kids { parts.push(format!("[{}] {}: {}", parent_attr(k, order), k.field, k.ty)); }
+    let perms = permutations(parts.len(), 720);
+    let pm = &perms[order % perms.len()];
+    format!("parent({})", pm.iter().map(|&i| parts[i].clone()).collect::<Vec<_>>().join(", "))
+}
+
+// `#[parent(x)]` with one plain name means "bare parent dedicated to type x": give such nodes a second member
+fn widen(n: &mut Node) {
+    if n.leaves.len() == 1 && n.kids.is_empty() { let l = format!("{}_x", n.leaves[0]); n.leaves.push(l); }
+    for k in n.kids.iter_mut() { widen(k); }
+}
+
+fn c03_parents(r: &mut Rep) {
+    for mut tree in trees() {
+        for n in tree.iter_mut() { widen(n); }
+        // one parent member per top-level node of the tree
+        for order in 0..24 {
+            for top_first in [true, false] {
+                let members: Vec<String> = tree.iter().map(|n| format!("#[{}] {}: {}", parent_attr(n, order), n.field, n.ty)).collect();
+                let fields = if top_first { format!("t1: i32, {}", members.join(", ")) } else { format!("{}, t1: i32", members.join(", ")) };
+                let src = format!("#[map(B)]\n#[into_existing(B)]\nstruct A {{ {} }}", fields);
+                r.cases += 1;
+                let out = match expand(&src) { Ok(o) => o, Err(e) => { r.fail(&src, format!("does not expand: {}", e)); continue; } };
+                let is = match impls(&out) { Ok(i) => i, Err(e) => { r.fail(&src, e); continue; } };
+                let (mut leaves, mut parents) = (vec![], vec![]);
+                flatten(&tree, "", &mut leaves, &mut parents);
+                for i in &is {
+                    if i.method == "from" {
+                        let e = match i.stmts.last() { Some(syn::Stmt::Expr(e)) if i.stmts.len() == 1 => e, _ => { r.fail(&src, format!("[{}] body is not one expression", i.head)); break; } };
+                        // the tree of this side, every leaf read from the flat counterpart
+                        let exp = expected_into(&[("t1".to_string(), String::new())], &tree, "A", "value");
+                        fn flat(l: Lit) -> Lit { match l { Lit::Struct(t, m) => Lit::Struct(t, m.into_iter().map(|(k, v)| (k, flat(v))).collect()), Lit::Leaf(s) => Lit::Leaf(s) } }
+                        match lit_of(e) {
+                            Ok(got) if got == flat(exp.clone()) => {}
+                            o => { r.fail(&src, format!("[{}] built {:?}, the tree is {:?}", i.head, o, exp)); break; }
+                        }
+                    } else {
+                        let mut exp_pairs: Vec<(String, String)> = vec![("t1".into(), "self.t1".into())];
+                        for (l, p) in &leaves { exp_pairs.push((l.clone(), format!("self.{}.{}", p, l))); }
+                        if i.method == "into" {
+                            let e = match i.stmts.last() { Some(syn::Stmt::Expr(e)) if i.stmts.len() == 1 => e, _ => { r.fail(&src, format!("[{}] body is not one expression", i.head)); break; } };
+                            let exp = Lit::Struct("B".into(), exp_pairs.iter().map(|(l, v)| (l.clone(), Lit::Leaf(v.clone()))).collect());
+                            match lit_of(e) { Ok(got) if got == exp => {} o => { r.fail(&src, format!("[{}] built {:?}, expected the flat counterpart {:?}", i.head, o, exp)); break; } }
+                        } else {
+                            let mut got: Vec<String> = i.stmts.iter().map(|s| ts(s).replace(' ', "")).collect();
+                            let mut exp: Vec<String> = exp_pairs.iter().map(|(l, v)| format!("other.{}={};", l, v)).collect();
+                            got.sort(); exp.sort();
+                            if got != exp { r.fail(&src, format!("[{}] statements {:?}, expected {:?}", i.head, got, exp)); break; }
                         }
                     }
-                } else if i.method == "from" {
-                    let e = match i.stmts.last() { Some(syn::Stmt::Expr(e)) => e, _ => { r.fail(&src, format!("[{}] body does not end with an expression", i.head)); break; } };
-                    let mut m = BTreeMap::new();
-                    for (l, p) in &all { m.insert(l.clone(), Lit::Leaf(if p.is_empty() { format!("value.{}", l) } else { format!("value.{}.{}", p, l) })); }
-                    match lit_of(e) {
-                        Ok(got) if got == Lit::Struct("A".into(), m.clone()) => {}
-                        o => { r.fail(&src, format!("[{}] built {:?}, expected every field read from its child path {:?}", i.head, o, m)); break; }
-                    }
-                } else if i.method == "into_existing" {
-                    // one assignment `other.<path>.<leaf> = self.<leaf>;` per field, nothing else
-                    let mut got: Vec<String> = i.stmts.iter().map(|s| ts(s).replace(' ', "")).collect();
-                    let mut exp: Vec<String> = all.iter().map(|(l, p)| if p.is_empty() { format!("other.{}=self.{};", l, l) } else { format!("other.{}.{}=self.{};", p, l, l) }).collect();
-                    got.sort(); exp.sort();
-                    if got != exp { r.fail(&src, format!("[{}] statements {:?}, expected {:?}", i.head, got, exp)); break; }
                 }
             }
         }
@@ -260,7 +375,8 @@ fn main() {
         _ => { eprintln!("usage: structural c08|c03"); std::process::exit(2); }
     }
     println!("{{\"suite\":\"{}\",\"cases\":{},\"failures\":{}}}", suite, r.cases, r.fails.len());
-    for (a, why) in r.fails.iter().take(10) {
+    let cap = if std::env::var("STRUCTURAL_ALL").is_ok() { usize::MAX } else { 10 };
+    for (a, why) in r.fails.iter().take(cap) {
         println!("FAIL\t{}\t{}", a, why.replace('\n', " ").chars().take(900).collect::<String>());
     }
 }
